@@ -591,6 +591,47 @@ C10_read_xml(step) ==
   Cl("C10_read_xml", IsRT(step, "xml") /\ step.stage \in {"read", "done"} /\ WfXML(step.ast),
      ReadBagEq(SpecReadXML(step.ast), step.src))
 C02Clauses(step) == IF IsRT(step, "xml") THEN {C02_noexc(step), C02_rt(step)} ELSE {}
+(* ---- reading the PROV-N writer model's output (ProvNW.EncPN) as the recommendation says: the   *)
+(* rules of SpecProvN on the reduced form, for the model-level invariant ProvNDenotes            *)
+APNLit(l, inner, outer) ==
+  CASE l.l = "int" -> [t |-> "int", v |-> l.v]
+    [] l.l = "qn"  -> [t |-> "qn", u |-> PNName(l.qn, inner, outer)]
+    [] l.l = "str" ->
+         IF l.lang # "" THEN [t |-> "lang", v |-> l.pay, lang |-> l.lang]
+         ELSE IF l.dt = <<>> THEN [t |-> "str", v |-> l.pay]
+         ELSE IF l.dt[1] = IsoMark THEN [t |-> "isostr", v |-> l.pay]      \* marker <<IsoMark>> of PNLitOf
+         ELSE LET dt == PNName(l.dt[1], inner, outer)
+                  x  == XsdT(dt)
+              IN IF dt = NONE THEN Bad("unbound datatype")
+                 ELSE IF x = "string" THEN [t |-> "str", v |-> l.pay]
+                 ELSE IF x \in JIntTypes THEN [t |-> "int", v |-> l.pay]
+                 ELSE IF x \in {"double", "float", "decimal"} THEN [t |-> "float", v |-> l.pay]
+                 ELSE IF x = "boolean" THEN [t |-> "bool", v |-> l.pay]
+                 ELSE IF x = "dateTime" THEN [t |-> "dt", v |-> l.pay]
+                 ELSE IF x = "anyURI" THEN [t |-> "uri", u |-> l.pay]
+                 ELSE [t |-> "lit", v |-> l.pay, dt |-> dt]
+APNRecord(e, inner, outer) ==
+  LET T == PNTable[e.name]
+      args == PNArgs(e, T)
+      ident == IF T.idarg THEN PNName(e.args[1].qn, inner, outer)
+               ELSE IF e.id = <<>> THEN NONE ELSE PNName(e.id[1], inner, outer)
+      formal(i) == IF args[i].a = "time" THEN [t |-> "dt", v |-> args[i].iso]
+                   ELSE [t |-> "qn", u |-> PNName(args[i].qn, inner, outer)]
+  IN [k |-> T.k, id |-> ident,
+      attrs |-> {[a |-> <<"prov#", T.pos[i]>>, v |-> formal(i)] : i \in {j \in 1..Len(args) : args[j].a # "marker"}}
+                \cup {[a |-> PNName(x[1], inner, outer), v |-> APNLit(x[2], inner, outer)] : x \in e.attrs}]
+APNWf(pn) ==
+  /\ \A i \in 1..Len(pn.exprs) : WfExpr(pn.exprs[i])
+  /\ \A b \in 1..Len(pn.bundles) : \A i \in 1..Len(pn.bundles[b].exprs) : WfExpr(pn.bundles[b].exprs[i])
+ReadAPN(pn) ==
+  LET top == PNScope(pn.decls)
+      none == [pfx |-> <<>>, dflt |-> NONE]
+  IN [recs |-> [i \in 1..Len(pn.exprs) |-> APNRecord(pn.exprs[i], top, none)],
+      bundles |-> [b \in 1..Len(pn.bundles) |->
+                     LET sc == PNScope(pn.bundles[b].decls) IN
+                     [id |-> PNName(pn.bundles[b].id, top, none),
+                      recs |-> [i \in 1..Len(pn.bundles[b].exprs) |-> APNRecord(pn.bundles[b].exprs[i], sc, top)]]]]
+
 C06_parses(step) == Cl("C06_parses", IsRT(step, "provn"), step.exc = "none")
 C06_grammar(step) == Cl("C06_grammar", IsRT(step, "provn") /\ step.exc = "none", WfProvN(step.ast))
 C06_denotes(step) ==
